@@ -87,12 +87,13 @@ def line_facts(lines, words, hard, W):
     return facts, ok
 
 
-def reflow_record(m, src, words, hard, W, L, protected=None):
+def reflow_record(m, src, words, hard, W, L, protected=None, skip=0):
     y = md(m, src, L)
     z = md(m, y, L)
     lines = y.split('\n')
     if lines and lines[-1] == '':
         lines.pop()
+    lines = lines[skip:]          # (two-item documents: the first item is one word on one line; the facts are about the second)
     facts, ok = line_facts(lines, words, hard, W) if W >= 0 else ([], True)
     return {'law': 'reflow', 'L': L, 'y': proj.asc(y), 'z': proj.asc(z), 'htmlX': proj.asc(html(m, src)),
             'htmlY': proj.asc(html(m, y)), 'lines': facts, 'wordsOk': 'yes' if ok else 'no',
@@ -107,7 +108,7 @@ def _doc_worker(args):
         for j in range(len(Ls) if len(Ls) <= 6 else 5):
             L = Ls[(start + k + j * 7) % len(Ls)] if len(Ls) > 6 else Ls[j]
             try:
-                r = reflow_record(m, d['src'], d['words'], d['hard'], d['W'], L)
+                r = reflow_record(m, d['src'], d['words'], d['hard'], d['W'], L, skip=d.get('skip', 0))
             except Exception as e:
                 r = {'law': 'reflow', 'L': L, 'y': 'EXCEPTION ' + e.__class__.__name__, 'z': '', 'htmlX': 'x', 'htmlY': 'y', 'lines': [],
                      'wordsOk': 'no', 'protectedIn': [], 'protectedOut': []}
@@ -203,6 +204,13 @@ def run():
         raise core.MachineryError('Wrap.tla (definitions) exported only %d documents' % len(ddocs))
     docs += ddocs
     ck.extra['definition_documents'] = len(ddocs)
+    res = core.tlc('Wrap', 'WrapItems.cfg', workers=1, timeout=3000, heap='2g')     # two-item lists whose second item has the wider content offset
+    ck.add_tlc(res)
+    idocs = res.printed_json()
+    if len(idocs) < 1000:
+        raise core.MachineryError('Wrap.tla (items) exported only %d documents' % len(idocs))
+    docs += idocs
+    ck.extra['two_item_documents'] = len(idocs)
     try:
         from . import docgen
         docs += docgen.reflow_documents(ck, m)
@@ -225,7 +233,7 @@ def run():
         if v != 'ok':
             classes = []
             ck.violation('%s: L=%d source=%r reflowed=%r' % (v, L, d['src'], r['y']),
-                         {'kind': 'doc', 'source': d['src'], 'L': L, 'words': d['words'], 'W': d['W'], 'clause': v, 'classes': classes})
+                         {'kind': 'doc', 'source': d['src'], 'L': L, 'words': d['words'], 'W': d['W'], 'skip': d.get('skip', 0), 'clause': v, 'classes': classes})
     ck.extra['documents'] = len(docs)
     ck.extra['reflows'] = len(recs)
     bad = json.loads(json.dumps([r for r in recs if len(r['lines']) > 0][:20]))
@@ -247,7 +255,7 @@ def replay(path):
     m = core.impl()
     if rep.get('kind') == 'doc':
         hard = ['no'] * len(rep['words'])
-        r = reflow_record(m, rep['source'], rep['words'], hard, rep['W'], rep['L'])
+        r = reflow_record(m, rep['source'], rep['words'], hard, rep['W'], rep['L'], skip=rep.get('skip', 0))
         print(json.dumps(r, indent=1))
         bad = r['htmlX'] != r['htmlY'] or r['y'] != r['z'] or any(l['len'] > rep['L'] and l['breakable'] > 0 for l in r['lines'])
         return 1 if bad else 0
